@@ -14,7 +14,7 @@ theorem sepsGood_push (c : Ctx) (seps : List CC) (ti : Nat) (h : sepsGood c seps
   · exact h s h1
   · simp only [List.mem_singleton] at h1; subst h1; exact (emitTokenComments_spec c ti).2.2
 
-theorem list_other (c : Ctx) (st : ListSt) (d : SDoc) (h : (st.foundOpen && emp c st.closeDoc && st.seps.length == st.items.length) = true) :
+theorem list_other (c : Ctx) (st : ListSt) (d' : Ch) (h : (st.foundOpen && emp c st.closeDoc && st.seps.length == st.items.length) = true) :
     listHeld c (listOther st d' ) = listHeld c st ++ content c d'.2 := by
   simp only [Bool.and_eq_true, emp_iff] at h
   obtain ⟨⟨h1, h2⟩, _⟩ := h
@@ -23,44 +23,66 @@ theorem list_other (c : Ctx) (st : ListSt) (d : SDoc) (h : (st.foundOpen && emp 
 
 def listInv (c : Ctx) (st : ListSt) : Prop := sepsGood c st.seps ∧ st.seps.length ≤ st.items.length
 
+theorem listInv_other (c : Ctx) (st : ListSt) (ch : Ch) (hi : listInv c st) : listInv c (listOther st ch) := by
+  simp only [listOther]; split <;> exact hi
+
+/-- the bracket counter is not part of what the state holds -/
+theorem listHeld_depth (c : Ctx) (st : ListSt) (n : Nat) : listHeld c { st with depth := n } = listHeld c st := rfl
+
 theorem list_step (c : Ctx) (st : ListSt) (ch : Ch) (hi : listInv c st) (hch : ChOk c ch) (hok : listOk c st ch = true) :
     listInv c (listStep c st ch) ∧ listHeld c (listStep c st ch) = listHeld c st ++ content c ch.2 := by
   obtain ⟨g, d⟩ := ch
   cases g with
   | node k gs =>
     simp only [listOk] at hok
-    refine ⟨by simp only [listStep, listOther]; split <;> exact hi, ?_⟩
-    exact list_other c st (d' := (.node k gs, d)) d hok
+    refine ⟨listInv_other c st _ hi, ?_⟩
+    exact list_other c st (.node k gs, d) hok
   | token ti w =>
     have hd := chOk_token c _ d ti w rfl hch
     simp only [listOk] at hok
     simp only [listStep]
-    by_cases ho : isOpenDelim (c.kind ti) = true
-    · simp only [ho, if_true, Bool.and_eq_true, emp_iff, List.isEmpty_iff, Option.isNone_iff_eq_none] at hok ⊢
-      obtain ⟨⟨⟨⟨h1, h2⟩, h3⟩, h4⟩, h5⟩ := hok
-      refine ⟨hi, ?_⟩
-      simp [listHeld, h1, h2, h3, h4, h5, zipC]
-    · have ho' : isOpenDelim (c.kind ti) = false := by simpa using ho
-      simp only [ho', Bool.false_eq_true, if_false] at hok ⊢
-      by_cases hc : isCloseDelim (c.kind ti) = true
-      · simp only [hc, if_true, emp_iff] at hok ⊢
+    by_cases hn : (isOpenDelim (c.kind ti) && st.foundOpen) = true
+    · -- a bracket opened inside the list: part of the current item
+      simp only [hn, if_true] at hok ⊢
+      have hf : st.foundOpen = true := by simp only [Bool.and_eq_true] at hn; exact hn.2
+      refine ⟨listInv_other c { st with depth := st.depth + 1 } _ hi, ?_⟩
+      rw [list_other c { st with depth := st.depth + 1 } (.token ti w, d) (by simpa [hf] using hok), listHeld_depth]
+    · have hn' : (isOpenDelim (c.kind ti) && st.foundOpen) = false := by simpa using hn
+      simp only [hn', Bool.false_eq_true, if_false] at hok ⊢
+      by_cases ho : isOpenDelim (c.kind ti) = true
+      · simp only [ho, if_true, Bool.and_eq_true, emp_iff, List.isEmpty_iff, Option.isNone_iff_eq_none] at hok ⊢
+        obtain ⟨⟨⟨⟨h1, h2⟩, h3⟩, h4⟩, h5⟩ := hok
         refine ⟨hi, ?_⟩
-        simp [listHeld, hok]
-      · have hc' : isCloseDelim (c.kind ti) = false := by simpa using hc
-        simp only [hc', Bool.false_eq_true, if_false] at hok ⊢
-        by_cases hk : c.kind ti = .Comma
-        · simp only [hk, beq_self_eq_true, if_true, Bool.and_eq_true, emp_iff, beq_iff_eq, Option.isSome_iff_exists] at hok ⊢
-          obtain ⟨⟨⟨item, h1⟩, h2⟩, h3⟩ := hok
-          simp only [h1]
-          rw [pushCommaComments_eq c st.seps _ ti (by simp [h2])]
-          refine ⟨⟨sepsGood_push c _ ti hi.1, by simp [h2]⟩, ?_⟩
-          simp only [listHeld, h1, h3, List.append_nil]
-          rw [zipC_snoc_both c item _ st.items st.seps h2, hd, tokItems_comma c ti hk]
-          simp [List.append_assoc]
-        · have hk' : (c.kind ti == Kind.Comma) = false := by simpa using hk
-          simp only [hk', Bool.false_eq_true, if_false] at hok ⊢
-          refine ⟨by simp only [listOther]; split <;> exact hi, ?_⟩
-          exact list_other c st (d' := (.token ti w, d)) d hok
+        simp [listHeld, h1, h2, h3, h4, h5, zipC]
+      · have ho' : isOpenDelim (c.kind ti) = false := by simpa using ho
+        simp only [ho', Bool.false_eq_true, if_false] at hok ⊢
+        by_cases hcd : (isCloseDelim (c.kind ti) && decide (st.depth > 0)) = true
+        · -- the bracket that closes an inner one
+          simp only [hcd, if_true] at hok ⊢
+          refine ⟨listInv_other c { st with depth := st.depth - 1 } _ hi, ?_⟩
+          rw [list_other c { st with depth := st.depth - 1 } (.token ti w, d) hok, listHeld_depth]
+        · have hcd' : (isCloseDelim (c.kind ti) && decide (st.depth > 0)) = false := by simpa using hcd
+          simp only [hcd', Bool.false_eq_true, if_false] at hok ⊢
+          by_cases hc : isCloseDelim (c.kind ti) = true
+          · simp only [hc, if_true, emp_iff] at hok ⊢
+            refine ⟨hi, ?_⟩
+            simp [listHeld, hok]
+          · have hc' : isCloseDelim (c.kind ti) = false := by simpa using hc
+            simp only [hc', Bool.false_eq_true, if_false] at hok ⊢
+            by_cases hk : (c.kind ti == Kind.Comma && st.depth == 0) = true
+            · have hk1 : c.kind ti = .Comma := by simp only [Bool.and_eq_true, beq_iff_eq] at hk; exact hk.1
+              simp only [hk, if_true, Bool.and_eq_true, emp_iff, beq_iff_eq, Option.isSome_iff_exists] at hok ⊢
+              obtain ⟨⟨⟨item, h1⟩, h2⟩, h3⟩ := hok
+              simp only [h1]
+              rw [pushCommaComments_eq c st.seps _ ti (by simp [h2])]
+              refine ⟨⟨sepsGood_push c _ ti hi.1, by simp [h2]⟩, ?_⟩
+              simp only [listHeld, h1, h3, List.append_nil]
+              rw [zipC_snoc_both c item _ st.items st.seps h2, hd, tokItems_comma c ti hk1]
+              simp [List.append_assoc]
+            · have hk' : (c.kind ti == Kind.Comma && st.depth == 0) = false := by simpa using hk
+              simp only [hk', Bool.false_eq_true, if_false] at hok ⊢
+              refine ⟨listInv_other c st _ hi, ?_⟩
+              exact list_other c st (.token ti w, d) hok
 
 theorem list_content (c : Ctx) (cs : List Ch) (hch : ∀ ch ∈ cs, ChOk c ch)
     (hok : allOk (listStep c) (listOk c) {} cs = true) : content c (printGroupedList c cs) = chContent c cs := by
